@@ -141,10 +141,18 @@ for L in range(1, 5):
         assert drain(state) == expected
         assert drain(state) == []  # exhausted stays exhausted
         # recall: the same descriptors are handed out again from the first one,
-        # the return value is the bitmap kept for reuse (none was kept here)
-        assert state.recall_bitmap() is None
-        assert drain(state) == expected
+        # the return value is the bitmap kept for reuse
+        # (rebased: since "fix: 237000 recalls the bitmap defined for reuse" a recall with no bitmap
+        # kept is refused and a recall rebuilds the bitmapped descriptors from the kept bitmap)
+        try:
+            state.recall_bitmap()
+        except PyBufrKitError:
+            assert drain(state) == []
+        else:
+            raise AssertionError('expected PyBufrKitError')
         state.bitmap = kept = list(bits)
+        assert state.recall_bitmap() is kept
+        assert drain(state) == expected
         assert state.recall_bitmap() is kept
         # recall in the middle of a run starts over
         if len(expected) > 1:
@@ -183,10 +191,10 @@ state.cancel_all_back_references()
 assert state.back_referenced_descriptors is None and state.bitmapped_descriptors is None and state.bitmap is None
 try:
     state.recall_bitmap()
-except TypeError:
+except PyBufrKitError:  # rebased: was a TypeError before the fix
     assert state.next_bitmapped_descriptor is not None  # the old one is left in place
 else:
-    raise AssertionError('expected TypeError')
+    raise AssertionError('expected PyBufrKitError')
 state.build_bitmapped_descriptors([0, 1, 1])
 assert [i for i, _ in state.back_referenced_descriptors] == [7, 8, 9]
 assert [i for i, _ in state.bitmapped_descriptors] == [7]
@@ -309,6 +317,6 @@ assert error_of([12001, 10004, 224000, 101002, 31031, 8023, 224255, 224255],
                 [280.5, 101000.0, 0, 1, 0, 4, 100000.0, 100000.0]) == 'StopIteration'
 # recall after 235000
 assert error_of([12001, 224000, 236000, 101001, 31031, 8023, 224255, 235000, 224000, 237000, 8023, 224255],
-                [280.5, 0, 0, 0, 4, 281.0, 0, 0, 4, 281.0]) == 'TypeError'
+                [280.5, 0, 0, 0, 4, 281.0, 0, 0, 4, 281.0]) == 'PyBufrKitError'  # rebased: was 'TypeError'
 
 print('demo 2 OK')
